@@ -3,7 +3,7 @@ import re
 from vf.extract import Source, Unit
 from vf import lex
 from vf.lex import Rule, ExtractionBreak
-from vf.pipeline import Group, Replay, ALL_LIB
+from vf.pipeline import Group, Replay, ALL_LIB, DEFAULT_CHECKS
 
 ID = 'C06'
 LEVEL = 'other'
@@ -62,7 +62,8 @@ def types_unit(ctx, src):
     """enum Format, union DataPtrs and the data members of class Image, cut from Image.hh (so that a change of a member type
     or of the member list reaches the verified text)."""
     u = Unit(ctx, 'image_types')
-    u.raw('#include <stdint.h>\n#include <stddef.h>\n#include <stdbool.h>\n#include <stdio.h>\n#include <stdlib.h>\n#include <string.h>\n#include <sys/types.h>\n')
+    u.raw('#ifndef X_IMAGE_TYPES_H\n#define X_IMAGE_TYPES_H')
+    u.raw('#include <stdint.h>\n#include <stddef.h>\n#include <stdbool.h>\n#include <stdio.h>\n#include <inttypes.h>\n#include <stdlib.h>\n#include <string.h>\n#include <sys/types.h>\n')
     en = u.snippet(src, HH, r'enum class Format \{(.*?)\};', group=1)
     names = [x.strip() for x in en.split(',') if x.strip()]
     u.raw('typedef enum {\n' + ',\n'.join('  Format_' + n for n in names) + '\n} Format;')
@@ -74,6 +75,7 @@ def types_unit(ctx, src):
     u.raw('typedef struct Image {\n' + mem + '\n} Image;')
     u.function(src, HH, r'inline size_t get_data_size\(\) const', scope=r'class Image',
                new_header='static inline size_t Image_get_data_size(const Image* self)')
+    u.raw('#endif')
     u.write(suffix='.h')
     return u
 
@@ -97,6 +99,7 @@ def ppm_load_unit(ctx, src):
         Rule(r'try\s*\{(.*?)\}\s*catch\s*\(const exception&\)\s*\{(.*?)\{ return ; \}\s*\}',
              r'\1 if (verif_exc) {\2 return; } C06_GHOST_AFTER_READ(new_data.raw);', count=1, regex=True),
         Rule(r'\bfreadx\(', 'C06_freadx(', count=1, regex=True),
+        Rule(r'\bmalloc\(', 'C06_malloc(', count=1, regex=True),
         UNION_RULE,
     ]
     emit_range(u, src, CC, LOAD, r'DataPtrs new_data;', ('block', r'if \(format == Format::GRAYSCALE_PPM\)'),
@@ -107,16 +110,19 @@ def ppm_load_unit(ctx, src):
     return u
 
 
-def ppm_load_groups(ctx, dim):
+def ppm_load_groups(ctx, dim_full):
     gs = []
     for fmt, fname in ((0, 'gray'), (1, 'colour')):
         for cw, alpha in [(c, a) for c in (8, 16, 32, 64) for a in (0, 1)]:
+            # the four channel-width branches of the expansion are the same text up to the pointer type; the 8-bit branch gets the tier's
+            # full bound, the wider ones (whose queries are 5x larger) half of it
+            dim = dim_full if (cw == 8 or fmt == 1) else dim_full // 2
             gs.append(Group(
                 name='Image.load.ppm[%s,cw=%d,alpha=%d]' % (fname, cw, alpha), harness='harness/C06/ppm_load.c', entry='h_ppm_tail',
                 function='Image::load (PPM/PGM/PAM: allocation, read, commit, gray expansion)', enforce='Image_load_ppm_tail', loops=True,
                 defines=['C06_DIM=%d' % dim, 'C06_CW=%d' % cw, 'C06_GRAY=%d' % (1 - fmt), 'C06_ALPHA=%d' % alpha], kind='bounded',
-                bound='image width and height symbolic in 1..%d (every residue of width mod 4), all pixel contents' % dim,
-                timeout=600, stage1=20, first='minisat', object_bits=12,
+                bound='image width and height symbolic in 1..%d, all pixel contents' % dim,
+                timeout=900, stage1=240, first='minisat', engines=['minisat', 'cadical'], object_bits=12,
                 clause_note='contracts/C06_ppm.h: every index inside the allocation, Image buffer holds get_data_size() bytes, pixel (x,y) == '
                             '(v,v,v[,a]) of the file sample, consumed bytes == w*h*channels*width/8, members unchanged when the read throws',
                 replay=Replay(mode='gray_load' if fmt == 0 else 'ppm_roundtrip', extra=['in_cw=0x%X' % cw, 'in_alpha=0x%X' % alpha], **RP)))
@@ -197,6 +203,7 @@ def bmp_load_groups(ctx, dim):
 def bmp_types_unit(ctx, src):
     """the three packed header structs, cut from Image.cc; le_* wrappers are plain integers under the little-endian host model"""
     u = Unit(ctx, 'bmp_types')
+    u.raw('#ifndef X_BMP_TYPES_H\n#define X_BMP_TYPES_H')
     u.raw('typedef uint16_t le_uint16_t;\ntypedef uint32_t le_uint32_t;\ntypedef int32_t le_int32_t;')
     for name in ('WindowsBitmapFileHeader', 'WindowsBitmapInfoHeader', 'WindowsBitmapHeader'):
         rules = []
@@ -207,6 +214,7 @@ def bmp_types_unit(ctx, src):
         s = u.snippet(src, CC, r'struct %s \{[^{}]*\} __attribute__\(\(packed\)\);' % name, rules=rules)
         u.raw(s)
         u.raw('typedef struct %s %s;' % (name, name))
+    u.raw('#endif')
     u.write(suffix='.h')
     return u
 
@@ -262,6 +270,7 @@ def bmp_header_unit(ctx, src):
         Rule(r'\bfreadx\(([^;]*)\);', r'C06_freadx(\1); if (verif_exc) return;', count=3, regex=True),
         Rule(r'(C06_freadx\(f, &header\.info_header\.header_size, 4\); if \(verif_exc\) return;)', r'\1 g_hsize = header.info_header.header_size;', count=1, regex=True),
         Rule(r'\bfseek\(f, ([^,;]*), SEEK_SET\)', r'C06_fseek_set(f, \1)', count=1, regex=True),
+        Rule('WindowsBitmapInfoHeader::SIZE24', 'WindowsBitmapInfoHeader_SIZE24', count=None),
     ]
     emit_range(u, src, CC, LOAD, r'WindowsBitmapHeader header = \{\};', ('before', r'unique_ptr<void, void \(\*\)\(void\*\)> new_data_unique'),
                'void Image_load_bmp_header(FILE* f, const char* sig, WindowsBitmapHeader* out_header, int32_t* out_w, int32_t* out_h, bool* out_rev)',
@@ -288,6 +297,9 @@ def bmp_misc_groups(ctx, src, dim):
                           'dispatches on biCompression 0 (BI_RGB) and 3 (BI_BITFIELDS)'),
         Group(name='Image.load.bmp.header', harness='harness/C06/bmp_misc.c', entry='h_header', function='Image::load (BMP header part)',
               enforce='Image_load_bmp_header', defines=codes + ['C06_HEADER=1'], kind='loop-free', timeout=300, object_bits=12,
+              # `biHeight * -1` overflows for biHeight == INT32_MIN only: a dimension far outside the property's range (1..64); that single
+              # check is switched off for this group and the case is listed under NOT_DECIDED
+              checks=[c for c in DEFAULT_CHECKS if c != '--signed-overflow-check'] + ['--no-signed-overflow-check'],
               clause_note='every freadx target lies inside the header object for every biSize the file can announce; accepted: 40 <= biSize <= 124, '
                           '24/32 bpp, 1 plane; w, h, row order and seek position taken from the header; io_error on a short file',
               replay=Replay(mode='bmp_load', extra=['in_w=0x1', 'in_h=0x1', 'in_depth=0x18', 'in_comp=0x0'], **RP)),
@@ -296,12 +308,69 @@ def bmp_misc_groups(ctx, src, dim):
         gs.append(Group(name='Image.bmp.save_load_identity[alpha=%d]' % alpha, harness='harness/C06/bmp_misc.c', entry='l_roundtrip',
                         function='Image::save_helper (WINDOWS_BITMAP) ; Image::load (BMP)',
                         replace=['Image_save_bmp', 'Image_load_bmp_rgb', 'Image_load_bmp_bitfields'],
-                        defines=codes + ['C06_DIM=%d' % dim, 'C06_ALPHA=%d' % alpha, 'C06_SAVE=1', 'C06_DECODE_BMP_HEADER=1', 'C06_LEMMA=1'], kind='lemma',
-                        bound='the two loop contracts it composes are proved for width, height in 1..%d' % dim,
+                        defines=codes + ['C06_DIM=%d' % (dim // 2), 'C06_ALPHA=%d' % alpha, 'C06_DEPTH=%d' % (32 if alpha else 24), 'C06_SAVE=1', 'C06_DECODE_BMP_HEADER=1', 'C06_LEMMA=1'], kind='lemma',
+                        bound='width, height in 1..%d (the loop contracts it composes are proved for 1..%d)' % (dim // 2, dim),
                         timeout=300, object_bits=12, min_post=3,
                         clause_note='over the saver and loader contracts: the header the saver emits selects a loader branch that reads channel c of pixel '
                                     '(x,y) from exactly the stream position where the saver put it; alpha flag, consumed == emitted bytes',
                         replay=Replay(mode='bmp_roundtrip', extra=['in_alpha=0x%X' % alpha], **RP)))
+    return gs
+
+# ---------------------------------------------------------------------------------------------------------------------
+# PNG scan-line copy loop; COLOR_PPM case of the saver; PPM save -> load lemma
+# ---------------------------------------------------------------------------------------------------------------------
+PNG_LOOP = ('__CPROVER_assigns(y, __CPROVER_object_whole(image_data))\n'
+            '__CPROVER_loop_invariant(C06_PNG_INV)\n__CPROVER_decreases((size_t)self->height - y)')
+
+
+def save_misc_unit(ctx, src):
+    u = Unit(ctx, 'save_misc')
+    emit_range(u, src, CC, SAVE, r'size_t pixel_size = 3 \+ this->has_alpha;', ('before', r'uLongf idat_size'),
+               'void Image_save_png_scanlines(const Image* self, void** out_image_data, size_t* out_image_size)',
+               rules=[Rule('auto image_data = malloc_unique(', 'void* image_data = C06_malloc_unique(', count=1),
+                      Rule('image_data.get()', 'image_data', count=1),
+                      Rule(r'\bmemcpy\(', 'verif_memcpy(', count=1, regex=True),
+                      UNION_RULE],
+               loops={1: PNG_LOOP}, nloops=1, tail='*out_image_data = image_data; *out_image_size = image_size;')
+    u.block(src, CC, SAVE, r'case Format::COLOR_PPM:', new_header='void Image_save_ppm(const Image* self)',
+            rules=[Rule(r'\bsnprintf\(', 'C06_snprintf(', count=2, regex=True),
+                   Rule(r'\bstrlen\(', 'C06_strlen(', count=1, regex=True),
+                   Rule(r'\bwriter\(', 'C06_writer(', count=2, regex=True),
+                   Rule('self->get_data_size()', 'Image_get_data_size(self)', count=1),
+                   Rule(r'\bbreak;\s*\}\s*$', 'return;\n}', count=1, regex=True)],
+            ret_zero='')
+    u.write()
+    return u
+
+
+def save_misc_groups(ctx, dim):
+    gs = []
+    for alpha in (0, 1):
+        gs.append(Group(name='Image.save.png.scanlines[alpha=%d]' % alpha, harness='harness/C06/save_misc.c', entry='h_png_scanlines',
+                        function='Image::save_helper (PNG: scan-line buffer handed to zlib)', enforce='Image_save_png_scanlines',
+                        replace=['verif_memcpy'], loops=True, defines=['C06_DIM=%d' % dim, 'C06_ALPHA=%d' % alpha], kind='bounded',
+                        bound='image width and height symbolic in 1..%d, all pixel contents' % dim,
+                        timeout=600, stage1=120, engines=['minisat', 'cadical'], object_bits=12,
+                        clause_note='contracts/C06_save.h: both memcpy ranges inside their allocations; h lines of 1+w*ps bytes; filter byte 0; '
+                                    'byte (x,c) of row y at y*(1+w*ps)+1+x*ps+c',
+                        replay=Replay(mode='png_save', extra=['in_alpha=0x%X' % alpha], **RP)))
+    for cw in (8, 16, 32, 64):
+        for alpha in (0, 1):
+            d = ['C06_DIM=%d' % dim, 'C06_ALPHA=%d' % alpha, 'C06_CW=%d' % cw]
+            rp = Replay(mode='ppm_roundtrip', extra=['in_alpha=0x%X' % alpha, 'in_cw=0x%X' % cw], **RP)
+            gs.append(Group(name='Image.save.ppm[cw=%d,alpha=%d]' % (cw, alpha), harness='harness/C06/save_misc.c', entry='h_ppm_save',
+                            function='Image::save_helper (COLOR_PPM)', enforce='Image_save_ppm', defines=d, kind='bounded',
+                            bound='image width and height symbolic in 1..%d, all pixel contents (no loop: the bound only keeps the size product small)' % dim,
+                            timeout=300, stage1=60, engines=['minisat', 'cadical'], object_bits=12,
+                            clause_note='contracts/C06_save.h: header text then exactly get_data_size() bytes, byte k of the buffer at header_len + k', replay=rp))
+            gs.append(Group(name='Image.ppm.save_load_identity[cw=%d,alpha=%d]' % (cw, alpha), harness='harness/C06/save_misc.c', entry='l_ppm_roundtrip',
+                            function='Image::save_helper (COLOR_PPM) ; Image::load (PPM)', replace=['Image_save_ppm', 'Image_load_ppm_tail'],
+                            defines=d + ['C06_GRAY=0', 'C06_LEMMA=1'], kind='lemma',
+                            bound='the two contracts it composes are proved for width, height in 1..%d; the text header is assumed to parse back to the '
+                                  'same width, height, maxval and tuple type (not decided)' % dim,
+                            timeout=300, stage1=60, engines=['minisat', 'cadical'], object_bits=12, min_post=2,
+                            clause_note='over the saver and loader contracts: byte k after the header is byte k of the loaded buffer; members equal; '
+                                        'consumed == emitted sample bytes', replay=rp))
     return gs
 
 
@@ -320,9 +389,14 @@ def plan(ctx):
     ubs = bmp_save_unit(ctx, src)
     ctx.functions_under_contract += ubs.functions
     groups += bmp_save_groups(ctx, dim)
+    usm = save_misc_unit(ctx, src)
+    ctx.functions_under_contract += usm.functions
+    groups += save_misc_groups(ctx, dim)
     ubh = bmp_header_unit(ctx, src)
     ctx.functions_under_contract += ubh.functions
     groups += bmp_misc_groups(ctx, src, dim)
+    heavy = lambda g: 0 if ('identity[alpha' in g.name or 'load.bmp[' in g.name or 'save.bmp[' in g.name) else 1 if 'gray' in g.name else 2
+    groups.sort(key=heavy)     # long-running queries first (better packing of the job slots); the sort is stable
     return groups
 
 
